@@ -3,6 +3,7 @@ package c14
 
 import (
 	"bytes"
+	"context"
 	"fmt"
 	"time"
 
@@ -200,8 +201,19 @@ func sharedScenario() *explore.Scenario {
 			return
 		}
 		order := vs.Choose(3, 0, "which wrapping sees the key first")
+		// the first arrival may carry a context that has already ended (a cancelled sender, a deadline in the past):
+		// with the in-memory repository that changes nothing - it is the arrival that gets through
+		firstCtx := vs.Choose(3, 0, "context of the first arrival")
 		send := func(k int) {
 			m := message.NewMessage(fmt.Sprintf("u%d", k), []byte("same payload"))
+			if k == 0 && firstCtx > 0 {
+				ctx, cancel := context.WithCancel(context.Background())
+				if firstCtx == 2 {
+					ctx, cancel = context.WithDeadline(context.Background(), vs.Now().Add(-time.Second))
+				}
+				cancel()
+				m.SetContext(ctx)
+			}
 			switch (order + k) % 3 {
 			case 0:
 				h1(m)
@@ -219,7 +231,7 @@ func sharedScenario() *explore.Scenario {
 			through += len(c.Msgs)
 		}
 		if through != 1 {
-			vs.Fail("exactly-one-per-key", "one Deduplicator (%s configuration) wrapping two handlers and a publisher: the same key got through %d times", configurations[cfg], through)
+			vs.Fail("exactly-one-per-key", "one Deduplicator (%s configuration) wrapping two handlers and a publisher (context of the first arrival: %s): the same key got through %d times", configurations[cfg], []string{"live", "cancelled", "deadline passed"}[firstCtx], through)
 		}
 		vs.Note("cfg=%s order=%d through=%d", configurations[cfg], order, through)
 	}}
